@@ -131,7 +131,7 @@ def proof_step(prop, tier, extra_vo=()):
         if tier == "thorough" and os.environ.get("VERIF_NO_CLEAN") != "1":
             run(["sh", "-c", "rm -f theories/*.vo theories/*.vos theories/*.vok theories/*.glob props/*.vo props/*.vos props/*.vok "
                  "props/*.glob extract/*.vo extract/*.glob theories/.*.aux props/.*.aux extract/.*.aux"], 60, cwd=COQ)
-        targets = [f"props/{prop}.vo", "extract/Extract.vo"] + list(extra_vo)
+        targets = [f"props/{prop}.vo", "extract/Extract.vo", "theories/Show.vo"] + list(extra_vo)
         rc, out, _ = run([os.path.join(COQ, "build.sh")] + targets, 3000, cwd=COQ)
         if rc != 0:
             info["ok"] = False
@@ -472,3 +472,88 @@ def write_evidence(prop, tier, seed, proof, stats, wall, violations, extra=None)
     with open(os.path.join(ROOT, "evidence", prop + ".json"), "w") as f:
         json.dump(ev, f, indent=1)
         f.write("\n")
+
+
+# ---------------------------------------------------------------- kernel anchor
+
+def _coq_ints(xs):
+    return "[" + "; ".join(f"({x})" for x in xs) + "]%Z"
+
+
+def _coq_arr(body):
+    d, _, e = body.partition(":")
+    dims = [x for x in d.split("x") if x]
+    es = [x for x in e.split(",") if x]
+    return dims, es
+
+
+def coq_args(tokens):
+    """case-line tokens -> the Coq term `list arg` (None when a token cannot be translated)"""
+    out, i = [], 0
+    while i < len(tokens):
+        t = tokens[i]
+        k, body = t[0], t[1:]
+        if k == "z":
+            out.append(f"AZ ({int(body)})%Z")
+        elif k == "n" and t == "n":
+            out.append("AN")
+        elif k == "l":
+            out.append("AL " + _coq_ints([int(x) for x in body.split(",") if x]))
+        elif k == "a":
+            d, e = _coq_arr(body)
+            out.append(f"AA {_coq_ints(d)} {_coq_ints(e)}")
+        elif k == "s":
+            b = bytes.fromhex(body)
+            out.append("AS " + _coq_ints(list(b)))
+        elif k == "A":
+            d, _, e = body.partition(":")
+            dims = [x for x in d.split("x") if x]
+            strs = [x for x in e.split(",")] if e else []
+            items = "; ".join(_coq_ints(list(bytes.fromhex(x[1:]))) for x in strs)
+            out.append(f"ASA {_coq_ints(dims)} [{items}]")
+        elif k == "L":
+            n = int(body)
+            arrs = []
+            for j in range(n):
+                d, e = _coq_arr(tokens[i + 1 + j][1:])
+                arrs.append(f"({_coq_ints(d)}, {_coq_ints(e)})")
+            out.append("AAs [" + "; ".join(arrs) + "]")
+            i += n
+        else:
+            return None
+        i += 1
+    return "[" + "; ".join(out) + "]"
+
+
+def kernel_anchor(prop, cases, model, wd, limit=120, seed=0):
+    """Evaluates a sample of the cases inside Coq (vm_compute of Show.answer) and compares, character for character,
+    with what the extracted OCaml evaluator printed.  Returns (checked, mismatches[(case, kernel, extracted)], note)."""
+    rng = random.Random(seed)
+    idx = [i for i, c in enumerate(cases) if c and not c.startswith("#") and len(c) < 1500 and not model[i].startswith("bad:")]
+    rng.shuffle(idx)
+    picked, lines = [], []
+    for i in idx:
+        toks = [t for t in cases[i].split(" ") if t]
+        name = toks[0].split("@")[0]
+        args = coq_args(toks[1:])
+        if args is None or not re.fullmatch(r"[A-Za-z0-9_]+", name):
+            continue
+        picked.append(i)
+        lines.append(f'Eval vm_compute in answer "{name}" {args}.')
+        if len(picked) >= limit:
+            break
+    if not picked:
+        return 0, [], "no translatable case"
+    src = ("From Coq Require Import String List ZArith.\nFrom ArrRs Require Import Dispatch Show.\n"
+           "Import ListNotations. Open Scope string_scope.\nSet Printing Width 10000000.\n" + "\n".join(lines) + "\n")
+    path = os.path.join(wd, f"anchor_{prop}.v")
+    open(path, "w").write(src)
+    with Lock("coq"):
+        rc, out, _ = run(["coqc", "-noglob", "-Q", os.path.join(COQ, "theories"), "ArrRs", path], 900, cwd=wd)
+    if rc != 0:
+        return 0, [("(anchor file)", "coqc failed: " + out[-400:], "-")], "coqc failed"
+    got = re.findall(r'^\s*= "(.*)"\s*$', out, re.M)
+    if len(got) != len(picked):
+        return 0, [("(anchor file)", f"{len(got)} answers for {len(picked)} questions", "-")], "count mismatch"
+    bad = [(cases[i], g, model[i]) for i, g in zip(picked, got) if g != model[i]]
+    return len(picked), bad, "ok"
